@@ -1195,5 +1195,8 @@ func (P *Prog) checkPrecedence(r *Result) {
 	// test-level Message / IssueCode / Params options reach the stored test, and the negated code is derived
 	// from the built-in code, not from an IssueCode option (C17's option-locality and not-typestate rules)
 	shareRule(P, r, checkC17, "C17/option-locality", nil, "C11/test-options-effective", 15)
+	// the language (and anything else a formatter reads with ctx.Get) is the one passed to *this* execution:
+	// every field of the pooled execution context, the values map included, is overwritten at acquisition (C07)
+	shareRule(P, r, checkC07, "C07/reinit", func(o Obligation) bool { return strings.Contains(o.Construct, "#zog/internals.ExecCtx.") }, "C11/context-values-per-call", 2)
 	shareRule(P, r, checkC17, "C17/not-typestate", func(o Obligation) bool { return strings.HasSuffix(o.Construct, "#shape") }, "C11/negated-code-from-builtin", 1)
 }
